@@ -1,16 +1,24 @@
 (* C20 — the role of each input file depends only on its extension and argument order.
    Statements only; model in Model/Files.v, proofs in Proofs/FilesOk.v.
-   walkdir and the real file system (symlinked roots, unreadable directories, non-UTF-8 names)
-   are outside the model and exercised by the runs of props/C20.py.
-   The third sentence of the property (swapping the two programs and the direction) is C20_swap_roles
-   (which file is left / right) + C20_swap (the two families of obligations are refuted by the same
-   interpretations; proved for the end-to-end model Model/StrongFull.v).  Equality of the emitted FILES
-   does not hold: the order of type declarations and transition axioms and the left_/right_ formula
-   names differ (docs/C20.md). *)
-From Coq Require Import List String Permutation Sorting.Sorted.
+   Symbolic links are part of the model (Model/Files.v: what walkdir's follow_links(true) does with a
+   link to a file / directory / device, a dangling link, a loop); other walkdir errors (missing
+   path, unreadable directory) and non-UTF-8 names are outside the model.
+   The third sentence of the property (swapping the two programs and the direction):
+   strong equivalence - C20_swap_roles (which file is left / right), C20_swap_syntactic (problem by
+   problem the same (role, formula) pairs in the same order, after a block of transition axioms that
+   is a permutation of the other family's block; problems named forward_k / backward_k; formula names
+   not compared), C20_swap (hence the same refutation sets), C20_swap_accepts;
+   external equivalence - C20_swap_roles_external (specification program and program exchange their
+   roles), C20_swap_external (the same behavioural differences; refutable iff refutable under the
+   premises of C02_external_equivalence); PARTIAL: no problem-by-problem statement for external tasks.
+   Equality of the emitted FILES does not hold: the order of type declarations and transition axioms
+   and the left_/right_ formula names differ (docs/C20.md). *)
+From Coq Require Import List String NArith Permutation Sorting.Sorted.
 Import ListNotations.
 From Anthem Require Import Syntax.Fol Syntax.Asp Sem.Domain Sem.Sat Model.Problem Model.Strong Model.StrongFull
-  Proofs.DecomposeOk Proofs.StrongFullOk Proofs.SwapOk.
+  Model.External Model.ExternalFull
+  Proofs.DecomposeOk Proofs.StrongFullOk Proofs.SwapOk Proofs.SwapSyn Proofs.C02Complete Proofs.SwapExt.
+From Anthem Require Proofs.NoClashDec.
 From Anthem Require Import Model.Files Proofs.FilesOk.
 Open Scope list_scope.
 
@@ -48,19 +56,45 @@ Theorem C20_first : forall ps : list string,
 Proof. exact roles_first. Qed.
 Print Assumptions C20_first.
 
-(* the walk order: arguments in argument order ... *)
+(* the walk order: arguments in argument order; `entry?`: the first walkdir error in that order is
+   the result (wbind = Result's and_then) *)
 Theorem C20_args_in_order : forall a b : list node,
-  sort (a ++ b) = sort_paths (flat_map walk a ++ flat_map walk b).
+  sort (a ++ b) =
+  wbind (collect (flat_map walk a)) (fun pa =>
+  wbind (collect (flat_map walk b)) (fun pb => WOk (sort_paths (pa ++ pb)))).
 Proof. exact sort_args_app. Qed.
 Print Assumptions C20_args_in_order.
 
 (* ... and inside a directory of plain files, in byte-wise file-name order *)
 Theorem C20_dir_in_name_order : forall (d : string) (cs : list node),
   all_files cs ->
-  walk (Dir d cs) = map (fun c => (d ++ "/" ++ node_name c)%string) (sort_nodes cs)
+  walk (Dir d cs) = map (fun c => VFile (d ++ "/" ++ node_name c)%string) (sort_nodes cs)
   /\ Permutation (sort_nodes cs) cs /\ Sorted node_le (sort_nodes cs).
 Proof. exact walk_flat_dir. Qed.
 Print Assumptions C20_dir_in_name_order.
+
+(* ---------------- symbolic links (finding F23, audit 2 B2) ----------------
+   With `follow_links(true)` a link that resolves is visited as what it resolves to UNDER THE
+   LINK'S OWN NAME: a link to a regular file like a regular file (its role follows from the link's
+   extension and position), a link to a directory like a directory, a link to a fifo/socket/device
+   is skipped like one.  [resolve] replaces every such link in a tree. *)
+Theorem C20_links_transparent : forall args : list node, sort (map resolve args) = sort args.
+Proof. exact sort_resolve. Qed.
+Print Assumptions C20_links_transparent.
+
+Theorem C20_link_file : forall s : string, walk (Link s LFile) = walk (File s).
+Proof. exact walk_link_file. Qed.
+Print Assumptions C20_link_file.
+
+(* Files::sort fails iff a dangling link (or circular chain of links) or a link to a directory that
+   contains it is below the arguments - with the first such walkdir error in walk order -, and
+   otherwise returns the buckets of the visited paths: NO entry is dropped silently except
+   directories, fifos, sockets and devices. *)
+Theorem C20_sort_ok_iff_clean : forall args : list node,
+  (forallb clean args = true -> sort args = WOk (sort_paths (map visit_path (flat_map walk args)))) /\
+  (forallb clean args = false -> exists e, sort args = WErr e /\ In (VErr e) (flat_map walk args)).
+Proof. exact sort_ok_iff_clean. Qed.
+Print Assumptions C20_sort_ok_iff_clean.
 
 (* C20_move: the roles depend only on: the .lp files in order, the first .spec, .ug, .po *)
 Theorem C20_key : forall ps ps' : list string,
@@ -88,11 +122,67 @@ Theorem C20_swap_roles : forall a b : string,
   kind_of a = KProgram -> kind_of b = KProgram ->
   left (sort_paths [b; a]) = Some b /\ right (sort_paths [b; a]) = Some a /\
   left (sort_paths [a; b]) = Some a /\ right (sort_paths [a; b]) = Some b.
-Proof.
-  intros a b Ha Hb. unfold sort_paths, sort_entries. cbn [map fold_left fst snd]. rewrite Ha, Hb.
-  repeat split; reflexivity.
-Qed.
+Proof. exact swap_roles_strong. Qed.
 Print Assumptions C20_swap_roles.
+
+(* THE SYNTACTIC STATEMENT (audit 2, B14): "swaps exactly the roles of axioms and conjectures".
+   rfs p = the (role, formula) pairs of problem p in order (formula names forgotten); tagged r t = the
+   formulas of t with role r; decompose_rf = Problem::decompose on (role, formula) lists; pnames n 0 k =
+   [n_0; ..; n_(k-1)].  Whenever the end-to-end model returns both families (every fuel, every flag):
+   there is ONE renaming rn (rename_conflicting_symbols, the same function for both tasks) and ONE
+   list Rs of (role, formula) lists - the decomposition of "side(B) as axioms, side(A) as
+   conjectures" - such that the k-th forward problem of (left B, right A) is
+        transition axioms of (B, A)  ++  Rs_k
+   and the k-th backward problem of (left A, right B) is
+        transition axioms of (A, B)  ++  Rs_k ;
+   the two blocks of transition axioms are permutations of each other (predicates in order of first
+   occurrence, left program first).  No clash premise, no axiom. *)
+Theorem C20_swap_syntactic :
+  forall (fuel : nat) (A B : Asp.program) (dec : decomposition) (repr : frepr) (simp brk : bool)
+         (pbs pbs' : list problem),
+    strong_decompose_full_fuel fuel (swap_forward A B dec repr simp brk) = SOk pbs ->
+    strong_decompose_full_fuel fuel (swap_backward A B dec repr simp brk) = SOk pbs' ->
+    let side := strong_side tau_star_tot mu_tot simp_ht_tot (simp_classic_tot_fuel fuel) (swap_forward A B dec repr simp brk) in
+    exists (rn : formula -> formula) (Rs : list (list (prole * formula))),
+      Rs = decompose_rf (tagged PAxiom (map rn (side B)) ++ tagged PConjecture (map rn (side A))) dec /\
+      map rfs pbs  = map (app (tagged PAxiom (map rn (transition_axioms B A)))) Rs /\
+      map rfs pbs' = map (app (tagged PAxiom (map rn (transition_axioms A B)))) Rs /\
+      Permutation (transition_axioms B A) (transition_axioms A B) /\
+      map pb_name pbs = pnames "forward" 0%N (List.length Rs) /\
+      map pb_name pbs' = pnames "backward" 0%N (List.length Rs).
+Proof. exact swap_syntactic. Qed.
+Print Assumptions C20_swap_syntactic.
+
+(* without the auxiliary notions: the two families have the same length and, position by position,
+   the same (role, formula) pairs up to order (only the leading transition axioms move) and the same
+   conjectures in the same order *)
+Theorem C20_swap_syntactic_perm :
+  forall (fuel : nat) (A B : Asp.program) (dec : decomposition) (repr : frepr) (simp brk : bool)
+         (pbs pbs' : list problem),
+    strong_decompose_full_fuel fuel (swap_forward A B dec repr simp brk) = SOk pbs ->
+    strong_decompose_full_fuel fuel (swap_backward A B dec repr simp brk) = SOk pbs' ->
+    Forall2 (fun p p' => Permutation (rfs p) (rfs p') /\ map rf (conjectures p) = map rf (conjectures p')) pbs pbs'.
+Proof. exact swap_syntactic_perm. Qed.
+Print Assumptions C20_swap_syntactic_perm.
+
+(* the same for the parametric assembly of Model/Strong.v (any component translations; no SOk
+   premise is needed there) *)
+Theorem C20_swap_syntactic_generic :
+  forall (tau_star mu : Asp.program -> theory) (simp_ht simp_classic : formula -> formula)
+         (A B : Asp.program) (dec : decomposition) (repr : frepr) (simp brk : bool),
+    let side := strong_side tau_star mu simp_ht simp_classic (swap_forward A B dec repr simp brk) in
+    exists (rn : formula -> formula) (Rs : list (list (prole * formula))),
+      Rs = decompose_rf (tagged PAxiom (map rn (side B)) ++ tagged PConjecture (map rn (side A))) dec /\
+      map rfs (strong_decompose tau_star mu simp_ht simp_classic (swap_forward A B dec repr simp brk))
+        = map (app (tagged PAxiom (map rn (transition_axioms B A)))) Rs /\
+      map rfs (strong_decompose tau_star mu simp_ht simp_classic (swap_backward A B dec repr simp brk))
+        = map (app (tagged PAxiom (map rn (transition_axioms A B)))) Rs /\
+      map pb_name (strong_decompose tau_star mu simp_ht simp_classic (swap_forward A B dec repr simp brk))
+        = pnames "forward" 0%N (List.length Rs) /\
+      map pb_name (strong_decompose tau_star mu simp_ht simp_classic (swap_backward A B dec repr simp brk))
+        = pnames "backward" 0%N (List.length Rs).
+Proof. exact swap_syntactic_generic. Qed.
+Print Assumptions C20_swap_syntactic_generic.
 
 (* obligations: `verify --equivalence strong --direction forward B A` and `--direction backward A B`
    (same other flags).  [swap_forward A B ..] = the task with left B, right A, forward;
@@ -119,6 +209,56 @@ Theorem C20_swap_accepts :
 Proof. exact swap_accepts. Qed.
 Print Assumptions C20_swap_accepts.
 
+
+(* ---------------- external equivalence ---------------- *)
+(* which file plays which role: `verify --equivalence external a.lp b.lp <rest>` where <rest> contains
+   no .lp file.  Without a .spec file the first .lp is the specification (inl: a program used as
+   specification) and the second the program - swapping the two .lp arguments exchanges the roles.
+   With a .spec file among the arguments that file is the specification (inr), the first .lp the
+   program and the second .lp is IGNORED - swapping replaces the program by the ignored file. *)
+Theorem C20_swap_roles_external : forall (a b : string) (rest : list string),
+  kind_of a = KProgram -> kind_of b = KProgram -> (forall y, In y rest -> kind_of y <> KProgram) ->
+  let f := sort_paths (a :: b :: rest) in
+  let f' := sort_paths (b :: a :: rest) in
+  user_guide f = user_guide f' /\ proof_outline f = proof_outline f' /\
+  match filter (is_kind KSpecification) rest with
+  | [] => specification f = Some (inl a) /\ program f = Some b /\
+          specification f' = Some (inl b) /\ program f' = Some a
+  | s :: _ => specification f = Some (inr s) /\ program f = Some a /\
+              specification f' = Some (inr s) /\ program f' = Some b
+  end.
+Proof. exact swap_roles_external. Qed.
+Print Assumptions C20_swap_roles_external.
+
+(* what the swap does to the obligations.  ext_swap_forward A B u .. = (specification B, program A,
+   forward, no proof outline), ext_swap_backward A B u .. = (specification A, program B, backward).
+   (1) Both tasks look for the same behavioural difference (C02full: T satisfies the user-guide
+       assumptions, is an external stable model of B, and no interpretation with T's public part is
+       one of A). *)
+Theorem C20_swap_external_difference :
+  forall (A B : Asp.program) (u : Fol.user_guide) (dec : decomposition) (repr : frepr) (byp simp brk : bool)
+         (FI : fint) (T : pint),
+    behavioural_difference (ext_swap_forward A B u dec repr byp simp brk) B FI T <->
+    behavioural_difference (ext_swap_backward A B u dec repr byp simp brk) A FI T.
+Proof. exact swap_external_difference. Qed.
+Print Assumptions C20_swap_external_difference.
+
+(* (2) Hence, under the premises of C02_external_equivalence for BOTH tasks (ext_premises: the
+       end-to-end model accepts the task, both programs tight, no symbol/predicate clash, the _p
+       renaming is faithful, the user-guide assumptions mention inputs only): some interpretation
+       refutes a problem of the one family iff some interpretation refutes a problem of the other.
+   PARTIAL: this is weaker than C20_swap (there: the SAME interpretations) and there is no
+   problem-by-problem statement for external tasks - the families differ by the _p renaming of the
+   private predicates of the program side; compared at run time only (props/C20.py). *)
+Theorem C20_swap_external :
+  forall (fuel : nat) (A B : Asp.program) (u : Fol.user_guide) (dec : decomposition) (repr : frepr) (byp simp brk : bool)
+         (pbs pbs' : list problem),
+    ext_premises fuel (ext_swap_forward A B u dec repr byp simp brk) B pbs ->
+    ext_premises fuel (ext_swap_backward A B u dec repr byp simp brk) A pbs' ->
+    forall FI : fint, (exists M, refutes_some FI M pbs) <-> (exists M, refutes_some FI M pbs').
+Proof. exact swap_external_refutable. Qed.
+Print Assumptions C20_swap_external.
+
 (* non-vacuity, and the reason the statement is about refutation sets: for  p :- q, not r.  and
    p :- q.  both families consist of one problem; they differ as lists (names, order of axioms) *)
 Example C20_swap_example :
@@ -135,6 +275,48 @@ Proof.
   split; [reflexivity|]. split; [reflexivity|]. split; [discriminate|reflexivity].
 Qed.
 
+
+(* non-vacuity of C20_swap_syntactic: the order of the transition axioms really differs
+   (A = p :- q.  B = q :- p.: predicates q, p for (B, A) and p, q for (A, B)), both families are
+   returned, and of C20_swap_external: both premises hold for
+   A = out(X) :- in(X).   B = q(X) :- in(X). out(X) :- q(X).   input: in/1. output: out/1. *)
+Example C20_swap_order_example :
+  let a0 p := mkatom p [] in
+  let A := [mkrule (HBasic (a0 "p")) [BLit (mklit SNone (a0 "q"))]] in
+  let B := [mkrule (HBasic (a0 "q")) [BLit (mklit SNone (a0 "p"))]] in
+  transition_axioms B A <> transition_axioms A B /\
+  exists pbs pbs',
+    strong_decompose_full (swap_forward A B DSequential ReprTauStar true true) = SOk pbs /\
+    strong_decompose_full (swap_backward A B DSequential ReprTauStar true true) = SOk pbs' /\
+    List.length pbs = 1 /\ map rfs pbs <> map rfs pbs'.
+Proof.
+  cbv zeta. split; [vm_compute; discriminate|]. eexists _, _. split; [vm_compute; reflexivity|].
+  split; [vm_compute; reflexivity|]. split; [reflexivity|vm_compute; discriminate].
+Qed.
+
+Example C20_swap_external_nonvacuous :
+  let av x := TVar x in
+  let pl p x := BLit (mklit SNone (mkatom p [av x])) in
+  let B := [ mkrule (HBasic (mkatom "q" [av "X"])) [pl "in" "X"]; mkrule (HBasic (mkatom "out" [av "X"])) [pl "q" "X"] ] in
+  let A := [ mkrule (HBasic (mkatom "out" [av "X"])) [pl "in" "X"] ] in
+  let u := [UGInput (mkpred "in" 1); UGOutput (mkpred "out" 1)] in
+  exists pbs pbs',
+    ext_premises full_fuel (ext_swap_forward A B u DIndependent ReprTauStar false true false) B pbs /\
+    ext_premises full_fuel (ext_swap_backward A B u DIndependent ReprTauStar false true false) A pbs' /\
+    List.length pbs = 1 /\ List.length pbs' = 1.
+Proof.
+  cbv zeta. eexists _, _. split; [|split; [|shelve]].
+  - eexists _, _, _. split; [vm_compute; reflexivity|]. split; [vm_compute; reflexivity|]. split; [vm_compute; reflexivity|].
+    split; [vm_compute; reflexivity|]. split; [vm_compute; reflexivity|].
+    split; [apply NoClashDec.task_no_clashb_spec; vm_compute; reflexivity|].
+    split; [apply rename_faithfulb_ok; vm_compute; reflexivity|apply ug_over_inputsb_ok; vm_compute; reflexivity].
+  - eexists _, _, _. split; [vm_compute; reflexivity|]. split; [vm_compute; reflexivity|]. split; [vm_compute; reflexivity|].
+    split; [vm_compute; reflexivity|]. split; [vm_compute; reflexivity|].
+    split; [apply NoClashDec.task_no_clashb_spec; vm_compute; reflexivity|].
+    split; [apply rename_faithfulb_ok; vm_compute; reflexivity|apply ug_over_inputsb_ok; vm_compute; reflexivity].
+  Unshelve. split; reflexivity.
+Qed.
+
 (* ---- non-vacuity / the corner cases named in docs/C20.md ---- *)
 Open Scope string_scope.
 Example C20_extension_examples :
@@ -148,7 +330,21 @@ Proof. repeat split; vm_compute; reflexivity. Qed.
 Example C20_sort_example :
   let tree := [File "z.lp"; Dir "d" [File "b.lp"; File "a.spec"; Dir "B" [File "c.lp"]; Special "l.lp"; File "a.lp"];
                File "u.ug"; File "first.spec"] in
-  flat_map walk tree = ["z.lp"; "d/B/c.lp"; "d/a.lp"; "d/a.spec"; "d/b.lp"; "u.ug"; "first.spec"] /\
-  roles_of (sort tree) =
-  mkroles (Some "z.lp") (Some "d/B/c.lp") (Some (inr "d/a.spec")) (Some "z.lp") (Some "u.ug") None.
+  flat_map walk tree = map VFile ["z.lp"; "d/B/c.lp"; "d/a.lp"; "d/a.spec"; "d/b.lp"; "u.ug"; "first.spec"] /\
+  option_map roles_of (match sort tree with WOk f => Some f | WErr _ => None end) =
+  Some (mkroles (Some "z.lp") (Some "d/B/c.lp") (Some (inr "d/a.spec")) (Some "z.lp") (Some "u.ug") None).
 Proof. split; vm_compute; reflexivity. Qed.
+
+(* F23 (audit 2 B2): `verify a.lp b.lp c.lp` with a.lp a symbolic link to a regular file: a.lp is the
+   left program and b.lp the right one (before the repair a.lp was dropped: left b.lp, right c.lp);
+   links inside directories and links to directories; dangling links and loops are errors, the
+   first one in walk order wins *)
+Example C20_link_examples :
+  sort [Link "a.lp" LFile; File "b.lp"; File "c.lp"] = sort [File "a.lp"; File "b.lp"; File "c.lp"] /\
+  option_map roles_of (match sort [Link "a.lp" LFile; File "b.lp"; File "c.lp"] with WOk f => Some f | WErr _ => None end) =
+  Some (mkroles (Some "a.lp") (Some "b.lp") (Some (inl "a.lp")) (Some "b.lp") None None) /\
+  flat_map walk [Dir "d" [File "z.lp"; Link "a.lp" LFile; LinkDir "m" [File "y.lp"; Link "n.lp" LSpecial]]; Link "u.ug" LFile]
+    = map VFile ["d/a.lp"; "d/m/y.lp"; "d/z.lp"; "u.ug"] /\
+  sort [File "a.lp"; Dir "d" [File "b.lp"; Link "q.txt" LDangling]; Link "l" LLoop] = WErr (EIo "d/q.txt") /\
+  sort [File "a.lp"; LinkDir "me" [File "a.lp"; Link "me" LLoop]] = WErr (ELoop "me/me").
+Proof. repeat split; vm_compute; reflexivity. Qed.
